@@ -517,24 +517,26 @@ type c01Obs struct {
 	Policy    []int64 `json:"policy"` // feePerByte, baseExecFee, storagePrice, maxTraceable, maxVUBInc, msPerBlock
 	Blocked   []int   `json:"blocked"`
 	// digests of read-only contract method answers (served from the native caches), by group
-	QPolicy    string            `json:"q_policy"`    // Policy.isBlocked of every universe account, fee getters
-	QNeo       string            `json:"q_neo"`       // NEO getCommittee, getNextBlockValidators, getCandidates, getGasPerBlock, getRegisterPrice, getCandidateVote
-	QUnclaimed string            `json:"q_unclaimed"` // NEO.unclaimedGas of every universe account (reads the gas-per-vote cache)
-	QAccounts  string            `json:"q_accounts"`  // NEO.getAccountState of every universe account
-	QNotary    string            `json:"q_notary"`    // Notary balanceOf / expirationOf / getMaxNotValidBeforeDelta
-	QWhitelist string            `json:"q_whitelist"` // Policy.getWhitelistFeeContracts (Faun): the cached whitelist with its fees
-	Whitelist  []int64           `json:"-"`           // (contract account, fee) pairs of the cached whitelist, for the model
-	QContracts string            `json:"q_contracts"` // Management.getContract of the storage contract of every signing account
-	QRoles     string            `json:"q_roles"`     // RoleManagement.getDesignatedByRole of every role at the tip and at historic heights
-	QIter      string            `json:"q_iter"`      // peek(prefix, options) of the storage contracts: Find iterators whose values are kept across Next
-	RoleQ      []c01RoleQ        `json:"-"`
-	ContractQ  []c01ContractQ    `json:"-"` // Management.getContract of the storage contract of every account
-	Enroll     string            `json:"enrollments"`
-	Natives    string            `json:"natives"`
-	Contracts  string            `json:"contracts"`
-	Roles      string            `json:"roles"`
-	Err        []string          `json:"err,omitempty"`
-	items      map[string][]byte // full contract storage ("id:keyhex" -> value), for the diagnosis of a divergence
+	QPolicy     string            `json:"q_policy"`    // Policy.isBlocked of every universe account, fee getters
+	QNeo        string            `json:"q_neo"`       // NEO getCommittee, getNextBlockValidators, getCandidates, getGasPerBlock, getRegisterPrice, getCandidateVote
+	QUnclaimed  string            `json:"q_unclaimed"` // NEO.unclaimedGas of every universe account (reads the gas-per-vote cache)
+	QAccounts   string            `json:"q_accounts"`  // NEO.getAccountState of every universe account
+	QNotary     string            `json:"q_notary"`    // Notary balanceOf / expirationOf / getMaxNotValidBeforeDelta
+	QWhitelist  string            `json:"q_whitelist"` // Policy.getWhitelistFeeContracts (Faun): the cached whitelist with its fees
+	GasPerBlock int64             `json:"-"`           // NEO.getGasPerBlock / getRegisterPrice as answered (for the model; digested in q_neo)
+	RegPrice    int64             `json:"-"`
+	Whitelist   []int64           `json:"-"`           // (contract account, fee) pairs of the cached whitelist, for the model
+	QContracts  string            `json:"q_contracts"` // Management.getContract of the storage contract of every signing account
+	QRoles      string            `json:"q_roles"`     // RoleManagement.getDesignatedByRole of every role at the tip and at historic heights
+	QIter       string            `json:"q_iter"`      // peek(prefix, options) of the storage contracts: Find iterators whose values are kept across Next
+	RoleQ       []c01RoleQ        `json:"-"`
+	ContractQ   []c01ContractQ    `json:"-"` // Management.getContract of the storage contract of every account
+	Enroll      string            `json:"enrollments"`
+	Natives     string            `json:"natives"`
+	Contracts   string            `json:"contracts"`
+	Roles       string            `json:"roles"`
+	Err         []string          `json:"err,omitempty"`
+	items       map[string][]byte // full contract storage ("id:keyhex" -> value), for the diagnosis of a divergence
 }
 
 type c01RoleQ struct {
@@ -750,8 +752,16 @@ func c01Queries(bc *core.Blockchain, u *c05Universe, o *c01Obs, bad func(string,
 	call(gNeo, nil, neoH, "getCommittee")
 	call(gNeo, nil, neoH, "getNextBlockValidators")
 	call(gNeo, nil, neoH, "getCandidates")
-	call(gNeo, nil, neoH, "getGasPerBlock")
-	call(gNeo, nil, neoH, "getRegisterPrice")
+	call(gNeo, func(it stackitem.Item) {
+		if v, err := it.TryInteger(); err == nil {
+			o.GasPerBlock = v.Int64()
+		}
+	}, neoH, "getGasPerBlock")
+	call(gNeo, func(it stackitem.Item) {
+		if v, err := it.TryInteger(); err == nil {
+			o.RegPrice = v.Int64()
+		}
+	}, neoH, "getRegisterPrice")
 	for _, k := range u.keys {
 		call(gNeo, nil, neoH, "getCandidateVote", k.Bytes())
 	}
@@ -1468,6 +1478,85 @@ func c01RandomOp(g *c05Gen, deployed map[int]bool) c05Op {
 	}
 }
 
+// c01MultiUpdate: 2-3 updates of ONE committee setting for one block (a "set2" transaction carries two of them),
+// and a generator of the transactions that read and use the setting in the following blocks.
+func c01MultiUpdate(g *c05Gen, deployed map[int]bool, faun bool, kinds []int) ([]c05Op, func() []c05Op) {
+	r := g.r
+	kind := pick(r, kinds)
+	val := func() int64 {
+		switch kind {
+		case 0:
+			return int64(r.intn(11)) * 1_0000_0000 / int64(1+r.intn(3))
+		case 1:
+			return int64(1+r.intn(4)) * 400_0000_0000
+		case 2:
+			return int64(200 + r.intn(3000))
+		case 3:
+			return int64(1 + r.intn(90))
+		case 4:
+			return int64(1 + r.intn(2000))
+		default:
+			return int64(r.intn(3000_0000))
+		}
+	}
+	name, _ := c05Set2(c05Op{K: kind})
+	single := func() c05Op {
+		o := c05Op{T: name, A: val()}
+		if name == "setattr" {
+			o.N = 0x22
+		}
+		return o
+	}
+	double := func() c05Op { return c05Op{T: "set2", K: kind, A: val(), N: int(val())} }
+	holder := func() int { return pick(r, c05Signers[:8]) }
+	var ups []c05Op
+	switch r.intn(4) {
+	case 0:
+		ups = []c05Op{double()}
+	case 1:
+		ups = []c05Op{single(), single()}
+	case 2:
+		ups = []c05Op{single(), double()}
+	default:
+		ups = []c05Op{single(), {T: "nt", F: holder(), To: 0, A: 0}, single(), single()}
+	}
+	if kind == 5 && faun && r.chance(50) {
+		// the whitelisted fee of a contract set twice in the block
+		for _, d := range []int{13, 14} {
+			if deployed[d] {
+				ups = []c05Op{{T: "wl", To: d, A: int64(1 + r.intn(5000))}, {T: "wl", To: d, A: int64(100000 + r.intn(3000000))}}
+				break
+			}
+		}
+	}
+	for i := range ups {
+		if ups[i].T == "nt" { // a claim inside the block of the updates: a self-transfer of nothing
+			ups[i].To = ups[i].F
+		}
+	}
+	reads := func() []c05Op {
+		a, b := holder(), holder()
+		out := []c05Op{{T: "nt", F: a, To: a, A: 0}, {T: "nt", F: b, To: pick(r, c05Signers), A: int64(1 + r.intn(50))}}
+		switch kind {
+		case 1:
+			out = append(out, c05Op{T: "reg", F: pick(r, c05Signers)}, c05Op{T: "unreg", F: pick(r, c05Signers)})
+		case 5:
+			for _, d := range []int{13, 14} {
+				if deployed[d] {
+					out = append(out, c05Op{T: "cput", F: pick(r, c05Signers), To: d, N: 1, K: 1, A: 3})
+				}
+			}
+			if g.notary {
+				out = append(out, c05Op{T: "na", F: pick(r, c05Signers), To: pick(r, c05Signers), A: 5, N: r.intn(3)})
+			}
+		default:
+			out = append(out, c05Op{T: "gt", F: pick(r, c05Signers), To: pick(r, c05Signers), A: int64(1 + r.intn(1000))})
+		}
+		return out
+	}
+	return ups, reads
+}
+
 // c01Scenario: the governance skeleton the random mix is laid over — candidates registered and voted into the
 // committee (with enough NEO for a 20% turnout), so that Policy block/unblock, unvote, unregister, re-register hit
 // committee members; the rest of the history is random.
@@ -1498,6 +1587,21 @@ func c01Generate(r *rng, c *c05Chain, run *c05Runner, nblocks int) ([]c05Op, err
 					return g.ops, err
 				}
 			}
+		}
+		if err := emit(c05Op{T: "blk"}); err != nil {
+			return g.ops, err
+		}
+	}
+	if r.chance(70) { // gas per block / register price updated several times within one block, used in the next one
+		ups, reads := c01MultiUpdate(g, deployed, false, []int{0, 0, 0, 1})
+		if err := emit(ups...); err != nil {
+			return g.ops, err
+		}
+		if err := emit(c05Op{T: "blk"}); err != nil {
+			return g.ops, err
+		}
+		if err := emit(reads()...); err != nil {
+			return g.ops, err
 		}
 		if err := emit(c05Op{T: "blk"}); err != nil {
 			return g.ops, err
@@ -1604,6 +1708,16 @@ func c01Generate(r *rng, c *c05Chain, run *c05Runner, nblocks int) ([]c05Op, err
 				later = append(later, []c05Op{{T: "citer", F: pick(r, c05Signers), To: d, N: s1, W: s2, K: pick(r, []int{2, 3, 4, 130, 132}), A: 1},
 					{T: "cdel", F: pick(r, c05Signers), To: d, N: s1, K: r.intn(3)},
 					{T: "citer", F: pick(r, c05Signers), To: d, N: s1, K: pick(r, []int{2, 4, 132})}})
+			case x >= 66 && x < 82:
+				// one governance setting updated 2-3 times within this block (in one transaction and / or in several);
+				// the caches that keep a history by index (gas per block) then hold several records of one index.
+				// Blocks N+1 and N+2 read and USE the setting: GAS claims across the boundary, a registration paying
+				// the register price, ordinary transactions whose network fee was computed from the fee settings
+				ups, reads := c01MultiUpdate(g, deployed, in01Faun(c), []int{0, 0, 0, 0, 1, 1, 2, 3, 4, 5})
+				if err := emit(ups...); err != nil {
+					return g.ops, err
+				}
+				later = append(later, reads(), reads())
 			case x >= 30 && x < 40:
 				// designations of several roles across blocks (each effective from the next block; a second designation of
 				// the same role in one block faults); answered at historic heights by every replica afterwards
